@@ -195,6 +195,21 @@ chk("C01", "model_checking",
     "front end; end-to-end observations trace-validated by TLC", "DESIGN.md section 4, C01")
 
 
+chk("C18", "model_checking",
+    "Reference parsers for MAC, IPv4 and RFC 4291 IPv6 text are written in TLA+ (spec/Addr.tla) and their laws "
+    "model-checked (spec/MC_Addr.tla). TLC enumerates (spec/GenAddr.tla) IPv6 texts with '::' at every (start, "
+    "length) placement and none x 3 group patterns x 4 spellings (case, leading zeros), malformed mutations (second "
+    "'::', extra group, five digits, non-hex, stray colons, blanks, signs, fixed corner texts), MAC / IPv4 octet "
+    "boundary spellings at every position and malformed shapes. Each text is assigned to an address property of a "
+    "fixed frame through the real interpreter; acceptance, the text read back and the bytes written by pcap_write "
+    "are validated by TLC (spec/AddrTrace.tla). Random addresses: the displayed text of one field assigned to "
+    "another must store the same address.",
+    "The display style is free: the text read back is parsed by the reference parser. IPv4 octets with leading zeros "
+    "and the IPv4-tail form of IPv6 are unspecified.",
+    "TLA+ reference parsers evaluated by TLC; TLC-enumerated texts replayed into the implementation; results "
+    "trace-validated by TLC", "DESIGN.md section 4, C18")
+
+
 def main():
     props = [json.loads(l)["id"] for l in open(os.path.join(VERIF, "properties.jsonl"))]
     na = [{"property_id": p, "reason": NOT_APPLICABLE.get(p, "check not built yet in this round (planned, see DESIGN.md section 8)")}
